@@ -1,6 +1,7 @@
 (** C04 property theorems (proofs in Proofs_C04.v, Proofs_C04_Model1..6.v).  Model: Broadcast.v (transcription of
     _util.apply and of the C++ normalisers); specification: BroadcastSpec.v. *)
 From AwkBroadcast Require Import Broadcast Proofs_C04 Proofs_C04_Model1 Proofs_C04_Model2 Proofs_C04_Model5 Proofs_C04_Model6.
+From AwkBroadcast Require Import Proofs_C04_Scal1 Proofs_C04_Scal2 Proofs_C04_Scal3 Proofs_C04_Probes Proofs_C04_Opt1 Proofs_C04_Opt2.
 
 (* (d) a missing value in any argument gives a missing result there *)
 Theorem none_propagates : forall op ar fuel args,
@@ -88,3 +89,82 @@ Theorem size1_vs_size0_differs : forall op fuel c1 c2 vs1 vs2,
   spec_broadcast op false fuel [SArr (type_of c1) vs1; SArr (type_of c2) vs2] = Ok [].
 Proof. exact size1_vs_size0_differs_lemma. Qed.
 Print Assumptions size1_vs_size0_differs.
+
+(* ---- beyond two arrays: ONE array of the fragment [jag] and ANY NUMBER of Python scalars at any positions
+   (x + 1, 100 - x, np.clip(x, lo, hi): three inputs).  [ins pre c post] = scalars, the array, scalars (model inputs);
+   [ssc] / [sinp] = a scalar as an argument of the specification; [sc_ok]: a boolean scalar is 0 or 1. ---- *)
+
+(* apply on the array as a variable-length list and the scalars = the specification (values AND error status) *)
+Theorem scalars_refine_spec : forall op fuel pre post c vs,
+  forallb sc_ok pre = true -> forallb sc_ok post = true -> jag c = true -> to_list c = Ok vs -> (csize c <= fuel)%nat ->
+  agrees (obs (Broadcast.apply op None fuel (ins pre c post)))
+         (unlist (spec_v op false (S fuel) (map ssc pre ++ arr_arg c vs :: map ssc post))).
+Proof. exact scalars_refine_spec_lemma. Qed.
+Print Assumptions scalars_refine_spec.
+
+Theorem scalars_refine_spec_strong : forall op fuel pre post c vs,
+  forallb sc_ok pre = true -> forallb sc_ok post = true -> jag c = true -> to_list c = Ok vs -> (csize c <= fuel)%nat ->
+  agrees_c (Broadcast.apply op None fuel (ins pre c post))
+           (unlist (spec_v op false (S fuel) (map ssc pre ++ arr_arg c vs :: map ssc post))).
+Proof. exact scalars_refine_spec_strong_lemma. Qed.
+Print Assumptions scalars_refine_spec_strong.
+
+(* the entry points.  PARTIAL — excluded: more than one array input together with scalars; arrays outside [jag]
+   (RegularArray, ByteMasked/BitMasked/UnmaskedArray, records, unions); boolean scalars not encoded as 0/1
+   (Proofs_C04_Scal3.scalar_bool_encoding_refuted: an artefact of the pair encoding, not of the code). *)
+Theorem broadcast_scalars_refines_spec_partial : forall op fuel pre post c vs,
+  forallb sc_ok pre = true -> forallb sc_ok post = true -> jag c = true -> to_list c = Ok vs -> (S (csize c) <= fuel)%nat ->
+  agrees (obs (broadcast_and_apply op None fuel (ins pre c post)))
+         (spec_broadcast op false fuel (map sinp pre ++ SArr (type_of c) vs :: map sinp post)).
+Proof. exact broadcast_scalars_refines_spec_partial_lemma. Qed.
+Print Assumptions broadcast_scalars_refines_spec_partial.
+
+Theorem broadcast_scalars_never_out_of_fuel : forall op fuel pre post c vs,
+  forallb sc_ok pre = true -> forallb sc_ok post = true -> jag c = true -> to_list c = Ok vs -> (S (csize c) <= fuel)%nat ->
+  obs (broadcast_and_apply op None fuel (ins pre c post)) <> Err EFuel /\
+  spec_broadcast op false fuel (map sinp pre ++ SArr (type_of c) vs :: map sinp post) <> Err EFuel.
+Proof. exact broadcast_scalars_never_out_of_fuel_lemma. Qed.
+Print Assumptions broadcast_scalars_never_out_of_fuel.
+
+(* ---- the other option encodings (ByteMaskedArray both polarities, BitMaskedArray, UnmaskedArray, IndexedOptionArray) as the
+   TOP node of an input, over a non-option layout of [jag]: fragment [jagO]; [osize] = number of calls of apply.
+   PARTIAL — excluded: such nodes BELOW the top node (inner levels; sample agreements in
+   Proofs_C04_Probes.option_encodings_test), more than two arrays, the entry point broadcast_and_apply (pack/unpack slice the
+   option node itself). ---- *)
+Theorem option_encodings_refine_spec_partial : forall op fuel c1 c2 vs1 vs2,
+  jagO c1 = true -> jagO c2 = true -> to_list c1 = Ok vs1 -> to_list c2 = Ok vs2 ->
+  (osize c1 + osize c2 <= fuel)%nat ->
+  agrees (obs (Broadcast.apply op None fuel [MC c1; MC c2]))
+         (unlist (spec_v op false (S fuel) [arr_arg c1 vs1; arr_arg c2 vs2])).
+Proof. exact option_encodings_refine_spec_lemma. Qed.
+Print Assumptions option_encodings_refine_spec_partial.
+
+Theorem option_encodings_refine_spec_strong_partial : forall op fuel c1 c2 vs1 vs2,
+  jagO c1 = true -> jagO c2 = true -> to_list c1 = Ok vs1 -> to_list c2 = Ok vs2 ->
+  (osize c1 + osize c2 <= fuel)%nat ->
+  agrees_c (Broadcast.apply op None fuel [MC c1; MC c2])
+           (unlist (spec_v op false (S fuel) [arr_arg c1 vs1; arr_arg c2 vs2])).
+Proof. exact option_encodings_refine_spec_partial_lemma. Qed.
+Print Assumptions option_encodings_refine_spec_strong_partial.
+
+(* one array of [jagO] and any number of scalars *)
+Theorem option_encodings_scalars_refine_spec_partial : forall op fuel pre post c vs,
+  forallb sc_ok pre = true -> forallb sc_ok post = true -> jagO c = true -> to_list c = Ok vs -> (osize c <= fuel)%nat ->
+  agrees (obs (Broadcast.apply op None fuel (ins pre c post)))
+         (unlist (spec_v op false (S fuel) (map ssc pre ++ arr_arg c vs :: map ssc post))).
+Proof. exact option_encodings_scalars_refine_spec_lemma. Qed.
+Print Assumptions option_encodings_scalars_refine_spec_partial.
+
+(* ---- RegularArray levels: NOT proved; two shapes on which the faithful model (= the code) departs from the specification,
+   to be excluded by any future fragment predicate (both are registered open findings) ---- *)
+Theorem regular_level_no_left_broadcast_refuted :
+  both2 UAdd rl (np [10; 20]) =
+  (Err EValue, Ok [VList [VList (iz [11]); VList (iz [12; 13])]; VList [VList []; VList (iz [24])]]).
+Proof. exact Proofs_C04_Probes.regular_level_no_left_broadcast_refuted. Qed.
+Print Assumptions regular_level_no_left_broadcast_refuted.
+
+Theorem regular_inner_size1_vs_size0_refuted :
+  both2 UAdd (Regular (ListOffset I64 [0] (np [])) 0 2) (Regular (ListOffset I64 [0; 1; 2] (np [5; 6])) 1 2) =
+  (Err EValue, Ok [VList []; VList []]).
+Proof. exact Proofs_C04_Probes.regular_inner_size1_vs_size0_refuted. Qed.
+Print Assumptions regular_inner_size1_vs_size0_refuted.
